@@ -1098,6 +1098,7 @@ func ufOptsOwned(opts []httphead.Option, n int) bool { return true }
 //@   props C09 C16 C15 C17
 //@   sig u conn -> hs err
 //@   locals br:*bufio.Reader bw:*bufio.Writer rl:[]byte req:httpRequestLine header:handshakeHeader onRequest:func(uri[]byte)error headerSeen:byte nonce:[]byte line:[]byte e:error k:[]byte v:[]byte ok:bool onHost:func(host[]byte)error custom:func([]byte)(string,bool) check:func([]byte)bool ok:bool f:func(httphead.Option)(httphead.Option,error) custom:func([]byte,[]httphead.Option)([]httphead.Option,bool) check:func(httphead.Option)bool ok:bool onHeader:func(key[]byte,value[]byte)error code:int rej:*ConnectionRejectedError ok:bool
+//@   callsite copy requires [keylen] sameSlice(c_dst, nonce) ==> len(c_src) == nonceSize
 //@   callsite httpWriteResponseUpgrade requires [allseen] headerSeen == 31 && err == nil && len(nonce) == 24
 //@   callsite httpWriteResponseError requires [rejhdr] dynTypeIs(err, "*ws.ConnectionRejectedError") ==> header[1] == err.(*ConnectionRejectedError).header
 //@   callsite httpWriteResponseError requires [usrhdr] header[0] == u.Header
@@ -1161,6 +1162,7 @@ func ufHijacked(w http.ResponseWriter) *bufio.ReadWriter { return nil }
 //@   locals nonce:string u:string c:string v:string check:func(string)bool ps:[]string i:int ok:bool f:func(httphead.Option)(httphead.Option,error) h:string check:func(httphead.Option)bool xs:[]string i:int ok:bool t:time.Duration header:handshakeHeader h:http.Header code:int rej:*ConnectionRejectedError ok:bool
 //@   callsite httpWriteResponseError requires [rejhdr] dynTypeIs(err, "*ws.ConnectionRejectedError") ==> header[1] == err.(*ConnectionRejectedError).header
 //@   callsite httpWriteResponseError requires [usrhdr] header[0] == HandshakeHeader(HandshakeHeaderHTTP(u.Header)) || u.Header == nil
+//@   callsite httpWriteResponseUpgrade requires [key] err == nil && len(nonce) == nonceSize
 //@   requires [r] r != nil && w != nil
 //@   ensures  [method] err == nil ==> eqvStr(r.Method, "GET") || len(r.Method) == 3
 //@   ensures  [proto]  err == nil ==> r.ProtoMajor == 1 && r.ProtoMinor >= 1
